@@ -745,11 +745,11 @@ Proof.
   intros Hc Hv Ech Hf Hu Hwf Ha.
   apply attr_chain_shape in Hc as (sc0 & _ & _ & Hnu & Hurl & _ & _).
   assert (Eshape : chain = [f; N_normalizeURL; N_sanitizeHTML]).
-  { destruct (sc_is_url sc0) eqn:Eu.
+  { pose proof Ech as Ech0. destruct (sc_is_url sc0) eqn:Eu.
     - specialize (Hurl eq_refl Hv). rewrite Hurl in Ech. unfold nonempty_names in Ech. cbn [filter] in Ech.
       change (negb (bytes_eqb N_normalizeURL [])) with true in Ech. cbn iota in Ech.
       destruct (negb (bytes_eqb (sc_sanitizer_name sc0) [])); cbn [app] in Ech.
-      + inversion Ech; subst. exact Hurl.
+      + inversion Ech as [[E1 E2]]. congruence.
       + inversion Ech as [[E1 E2]]. exfalso. destruct Hf as [-> | ->]; discriminate E1.
     - specialize (Hnu eq_refl). rewrite url_sanitizer_is_url in Eu.
       rewrite Hnu in Ech. unfold nonempty_names in Ech. cbn [filter] in Ech.
@@ -805,4 +805,108 @@ Qed.
 Example urlset_example :
   apply_chain [B "_sanitizeURLSet"; N_sanitizeHTML] (VStr (B "a.png 1x, javascript:alert(1) 2x, b.png 3x"))
   = Some (B "a.png 1x , b.png 3x").
+Proof. vm_compute. reflexivity. Qed.
+
+(* ================================================================== *)
+(* the statements of props/C02.v that combine the above *)
+Lemma code_loading_in_pairs e a rel : code_loading_url_attr e a rel = true -> In (e, a) code_loading_pairs.
+Proof.
+  unfold code_loading_url_attr, code_loading_pairs. intros H.
+  apply orb_true_iff in H as [H|H]; [apply orb_true_iff in H as [H|H]; [apply orb_true_iff in H as [H|H]|]|].
+  - apply andb_true_iff in H as [Ha He]. apply bytes_eqb_eq in Ha. subst a.
+    apply cc_mem_In in He. simpl in He. simpl.
+    destruct He as [<-|[<-|[<-|[<-|[]]]]]; auto 10.
+  - apply andb_true_iff in H as [He Ha]. apply bytes_eqb_eq in He, Ha. subst. simpl. auto 10.
+  - apply andb_true_iff in H as [He Ha]. apply bytes_eqb_eq in He, Ha. subst. simpl. auto 10.
+  - apply andb_true_iff in H as [H _]. apply andb_true_iff in H as [He Ha].
+    apply bytes_eqb_eq in He, Ha. subst. simpl. auto 10.
+Qed.
+
+Theorem code_loading_partial e a rel sc :
+  code_loading_url_attr e a rel = true ->
+  (e = B "link" -> rel_has_url_token rel = false) ->
+  sc_for_attr_val e a rel = Some sc ->
+  sc_sanitizer_name sc = B "_sanitizeTrustedResourceURL" /\ sc_is_url sc = true.
+Proof.
+  intros H Hrel Hsc. eapply code_loading_sanitizer; [eapply code_loading_in_pairs; exact H | exact Hrel | exact Hsc].
+Qed.
+
+Theorem no_javascript_url_single_piece c chain f rest vs os :
+  sanitizers_for_attr_value c = Some chain -> c_attr_value c = [] -> chain = f :: rest ->
+  f = B "_sanitizeURL" \/ f = B "_sanitizeTrustedResourceURLOrURL" ->
+  Forall (fun v => untrusted v /\ wf_bytes (stringify v)) vs ->
+  map (apply_chain chain) vs = map Some os ->
+  length vs = 1%nat ->
+  chain = [f; N_normalizeURL; N_sanitizeHTML] /\
+  whatwg_scheme (decode_runes (html_unescape (concat os))) <> Some javascript_scheme.
+Proof.
+  intros Hc Hv Ech Hf Hall Hmap Hlen.
+  destruct vs as [|v [|v' vs]]; try discriminate Hlen.
+  destruct os as [|o [|o' os]]; try discriminate Hmap.
+  cbn [map] in Hmap. inversion Hmap as [Ha]. inversion Hall as [|? ? [Hu Hwf] _]; subst.
+  cbn [concat]. rewrite app_nil_r.
+  eapply url_attr_whole_value; eauto.
+Qed.
+
+Theorem code_body c chain v :
+  c_elem c = B "script" \/ c_elem c = B "style" ->
+  c_elem_names c = [] -> c_attr c = [] -> c_attr_names c = [] -> c_state c <> StHTMLCmt ->
+  sanitizer_for_context c = Some chain ->
+  ((c_elem c = B "script" -> chain = [B "_sanitizeScript"]) /\
+   (c_elem c = B "style" -> chain = [B "_sanitizeStyleSheet"])) /\
+  (untrusted v -> apply_chain chain v = None).
+Proof.
+  intros He Hen Ha Han Hst Hc. split.
+  - exact (code_body_chain c chain He Hen Ha Han Hst Hc).
+  - exact (code_body_rejects c chain v He Hen Ha Han Hst Hc).
+Qed.
+
+Theorem handlers_refused e a rel c :
+  (handler_name a = true -> sc_for_attr_val e a rel = None) /\
+  (handler_name (c_attr c) = true -> c_attr_names c = [] -> sanitizers_for_attr_value c = None).
+Proof. split; [apply handler_denied | apply handler_context_refused]. Qed.
+
+Theorem code_loading_url c chain :
+  In (c_elem c, c_attr c) code_loading_pairs ->
+  (c_elem c = B "link" -> rel_has_url_token (c_link_rel c) = false) ->
+  c_elem_names c = [] -> c_attr_names c = [] ->
+  sanitizers_for_attr_value c = Some chain ->
+  (c_attr_value c = [] -> forall v, untrusted v -> apply_chain chain v = None) /\
+  (c_attr_value c <> [] ->
+     chain = [N_validateTRUSubst; N_queryEscapeURL; N_sanitizeHTML] /\
+     validate_tru_prefix (c_attr_value c) = true).
+Proof.
+  intros Hin Hrel Hen Han Hc. split.
+  - intros Hv v Hu. exact (code_loading_rejects c chain v Hin Hrel Hen Han Hv Hc Hu).
+  - intros Hv. exact (code_loading_after_prefix c chain Hin Hrel Hen Han Hv Hc).
+Qed.
+
+(* ================================================================== *)
+(* non-vacuity: the contexts the theorems talk about exist and are accepted by the analysis *)
+Example script_ctx_chain :
+  sanitizer_for_context (mkctx StSpecialElementBody DNone (B "script") [] [] [] false [] None [] [])
+  = Some [B "_sanitizeScript"].
+Proof. vm_compute. reflexivity. Qed.
+Example style_attr_chain :
+  sanitizers_for_attr_value (mkctx StAttr DDoubleQuote (B "div") [] (B "style") [] false [] None [] [])
+  = Some [B "_sanitizeStyle"; B "_sanitizeHTML"].
+Proof. vm_compute. reflexivity. Qed.
+Example srcdoc_attr_chain :
+  sanitizers_for_attr_value (mkctx StAttr DDoubleQuote (B "iframe") [] (B "srcdoc") [] false [] None [] [])
+  = Some [B "_sanitizeHTMLValOnly"; B "_sanitizeHTML"].
+Proof. vm_compute. reflexivity. Qed.
+Example script_src_chain :
+  sanitizers_for_attr_value (mkctx StAttr DDoubleQuote (B "script") [] (B "src") [] false [] None [] [])
+  = Some [B "_sanitizeTrustedResourceURL"; B "_normalizeURL"; B "_sanitizeHTML"].
+Proof. vm_compute. reflexivity. Qed.
+Example link_stylesheet_chain :
+  sanitizers_for_attr_value (mkctx StAttr DDoubleQuote (B "link") [] (B "href") [] false [] None [] (B " stylesheet "))
+  = Some [B "_sanitizeTrustedResourceURL"; B "_normalizeURL"; B "_sanitizeHTML"].
+Proof. vm_compute. reflexivity. Qed.
+Example a_href_chain :
+  sanitizers_for_attr_value (mkctx StAttr DDoubleQuote (B "a") [] (B "href") [] false [] None [] [])
+  = Some [B "_sanitizeTrustedResourceURLOrURL"; B "_normalizeURL"; B "_sanitizeHTML"].
+Proof. vm_compute. reflexivity. Qed.
+Example onclick_refused :
+  sanitizers_for_attr_value (mkctx StAttr DDoubleQuote (B "div") [] (B "onclick") [] false [] None [] []) = None.
 Proof. vm_compute. reflexivity. Qed.
